@@ -1262,7 +1262,37 @@ func (ex *Exec) convert(x Value, from, to types.Type, pos token.Pos) Value {
 		f := x.(F)
 		return ex.normInt(ex.b.ToIntTrunc(f.T))
 	case isIntT(from) && isIntT(to):
-		return x
+		fb, tb := under(from).(*types.Basic), under(to).(*types.Basic)
+		same := func(b *types.Basic) bool {
+			switch b.Kind() {
+			case types.Int, types.Int64, types.UntypedInt:
+				return true
+			}
+			return false
+		}
+		if same(fb) && same(tb) {
+			return x
+		}
+		v, ok := x.(int64)
+		if !ok {
+			// narrowing / sign-changing conversions of symbolic integers are not modelled: inconclusive, never guessed
+			panic(&GoPanic{Kind: "unsupported", Msg: "symbolic integer conversion " + from.String() + " -> " + to.String(), Pos: ex.pos2s(pos)})
+		}
+		switch tb.Kind() {
+		case types.Int8:
+			return int64(int8(v))
+		case types.Int16:
+			return int64(int16(v))
+		case types.Int32:
+			return int64(int32(v))
+		case types.Uint8:
+			return int64(uint8(v))
+		case types.Uint16:
+			return int64(uint16(v))
+		case types.Uint32:
+			return int64(uint32(v))
+		}
+		return v
 	case isFloatT(from) && isFloatT(to):
 		return x
 	case isStringT(from) && isStringT(to):
